@@ -102,9 +102,12 @@ pub fn sys_write<S: Src>(s: &mut S, len_c: u32, arg_c: u32) {
     let w_fd = fd.to_be_bytes();
     let w_buf = buf.to_be_bytes();
     let w_len = len.to_be_bytes();
-    c.window(0, arg, &w_fd);
-    c.window(2, arg + 4, &w_buf);
-    c.window(3, arg + 8, &w_len);
+    // the length word is window 0: the stub tests windows in index order, so with a constant argument
+    // block address the read of `length` is decided before the (symbolic-address) buffer window is
+    // consulted and folds to a constant during symbolic execution (probe: c14::probe_fold)
+    c.window(0, arg + 8, &w_len);
+    c.window(2, arg, &w_fd);
+    c.window(3, arg + 4, &w_buf);
     mem::set_window_len(&mut c.cpu, 1, buf, &data, len);
     attach_capture(&mut c.cpu);
     let r = c.step();
@@ -112,7 +115,7 @@ pub fn sys_write<S: Src>(s: &mut S, len_c: u32, arg_c: u32) {
     let mut e = c.expect();
     e.pc = c.pc0 + 2;
     let mut a = c.compare(&r, &e);
-    if mem::win_be32(&c.cpu, 0, 0) != fd || mem::win_be32(&c.cpu, 2, 0) != buf || mem::win_be32(&c.cpu, 3, 0) != len {
+    if mem::win_be32(&c.cpu, 2, 0) != fd || mem::win_be32(&c.cpu, 3, 0) != buf || mem::win_be32(&c.cpu, 0, 0) != len {
         a.mem = false;
     }
     let mut i = 0;
@@ -206,4 +209,24 @@ pub fn sys_other<S: Src>(s: &mut S) {
     witness!(c.pre.er[0] == 105, "call number 105");
     std::mem::forget(c);
     verdict!("rejected" => ok_err, "quiet" => ok_quiet);
+}
+
+/// Probe (not registered under any property): does a read through the footprint stub at a constant
+/// address of a window with constant contents fold to a constant during symbolic execution?
+pub fn probe_fold<S: Src>(s: &mut S) {
+    let mut c: Ctx = ih::begin(s, PC_RAM);
+    let w_len = 4u32.to_be_bytes();
+    c.window(3, 0xffe008, &w_len);
+    let code = c.code;
+    mem::set_code(&mut c.cpu, c.pc0, &code);
+    let v = c.cpu.vh_read_abs24_l(0xffe008).unwrap_or(99);
+    let mut k = 0u32;
+    let mut n = 0u32;
+    // if v is not a constant for CBMC this loop needs an unwinding bound
+    while k < v {
+        n += 1;
+        k += 1;
+    }
+    std::mem::forget(c);
+    verdict!("folded" => n == 4);
 }
